@@ -1,7 +1,7 @@
 /-
   Props/C19.lean — position along a curve (`position_at`, `progress_to_dist`, `idx_of_dist`,
   `interpolate_vertices`). Structural theorems: every `Scalar` instance, hence the IEEE one.
-  The exact-arithmetic theorems are in Props/C19Laws.lean.
+  Law-dependent statements (end points, vertices, Lipschitz) are not proved; they are tested by the harness oracle.
 -/
 import RosuModel.Model.Curve
 import RosuModel.Lemmas.Outcome
